@@ -114,3 +114,112 @@ Fixpoint run_passes (step : gstate -> an_config -> gstate * pass_result)
 
 Definition is_clean_failure (o : pass_result) : bool :=
   match o with PassInitError | PassCtorError | PassSkipped => true | _ => false end.
+
+(* ---------------- round 5: what the command-line arguments yield ----------------
+   loadProgram calls packages.Load itself and refuses, before anything is analysed, an empty package list and every
+   package without a name or without files (missing directory or file, pattern without match, directory without Go
+   files, missing package clause, unknown import path, `go list` giving up): "load program: <id>: <error>". *)
+Record target_config := {
+  tc_base : cli_config;
+  tc_all_targets_yield : bool    (* every argument yields at least one package with files *)
+}.
+Definition target_steps (c : target_config) : list (string * option cli_outcome) :=
+  let b := tc_base c in
+  [ ("parse args", if args_parse_ok b then None else Some (Fatal "parse args"));
+    ("load program",
+       if negb (load_ok b) then Some (Fatal "load packages")
+       else if negb (tc_all_targets_yield c) then Some (Fatal "load program")
+       else if negb (go_version_ok b) then Some (Fatal "load program")
+       else None);
+    ("init checkers",
+       if first_ctor_error b then Some (Fatal "init checkers")
+       else if negb (selection_nonempty b) then Some (Fatal "init checkers")
+       else None) ].
+Definition run_cli_targets (c : target_config) : cli_outcome := run_steps (target_steps c).
+Definition target_config_valid (c : target_config) : bool := cli_valid (tc_base c) && tc_all_targets_yield c.
+
+(* before the repair the patterns went to pkgload.LoadPackages, which passes over nameless packages, and nobody
+   looked at the packages' Errors: an argument that yields nothing changed nothing *)
+Definition run_cli_targets_prefix (c : target_config) : cli_outcome := run_cli (tc_base c).
+
+(* ---------------- round 5: the sub-command dispatcher ----------------
+   cmd/go-critic/main.go run() + github.com/cristalhq/acmd Runner.Run/findCmd, cmd/go-critic/doc.go runDocs.
+   argv is os.Args[1:]. *)
+Inductive dispatched :=
+| DCheck (args : list string)
+| DDoc (args : list string)
+| DHelp
+| DVersion
+| DError (msg : string).
+
+Definition quote (s : string) : string := String (ascii_of_N 34) (s ++ String (ascii_of_N 34) "").
+Definition subcommands : list string := ["check"; "doc"; "help"; "version"].
+
+Definition dispatch (argv : list string) : dispatched :=
+  match argv with
+  | [] => DError "no args provided"
+  | c :: rest =>
+      (* run() refuses the empty word before the runner sees it *)
+      if String.eqb c "" then DError ("no such command " ++ quote c)
+      else if String.eqb c "check" then DCheck rest
+      else if String.eqb c "doc" then DDoc rest
+      else if String.eqb c "help" then DHelp
+      else if String.eqb c "version" then DVersion
+      else DError ("no such command " ++ quote c)
+  end.
+
+(* flag.FlagSet.Parse for a flag set without flags: "--" ends the flags, "-" is positional, any other
+   argument that starts with '-' before the first positional one is an error (incl. -h: flag.ErrHelp) *)
+Definition doc_parse (args : list string) : option (list string) :=
+  match args with
+  | [] => Some []
+  | a :: r => if String.eqb a "--" then Some r
+              else if has_prefix "-" a && negb (String.eqb a "-") then None
+              else Some args
+  end.
+
+Definition doc_status (known : string -> bool) (args : list string) : Z :=
+  match doc_parse args with
+  | None => 1                                   (* returned error -> log.Fatal in run() *)
+  | Some [] => 0                                (* printShortDoc *)
+  | Some [n] => if known n then 0 else 1        (* printDoc / log.Fatalf("checker with name %q not found") *)
+  | Some _ => 1                                 (* log.Fatalf("expected 0 or 1 positional arguments") *)
+  end.
+
+(* exit status of main; check_status abstracts runCheck (Model_Init.run_cli for errors, Model_Cli.run otherwise) *)
+Definition main_status (known : string -> bool) (check_status : list string -> Z) (argv : list string) : Z :=
+  match dispatch argv with
+  | DCheck a => check_status a
+  | DDoc a => doc_status known a
+  | DHelp | DVersion => 0
+  | DError _ => 1
+  end.
+
+(* the runner alone (github.com/cristalhq/acmd findCmd) compares the word with each command's Name AND Alias; no
+   command has an alias, so the empty word equals every alias and selects the first command of the sorted list: check *)
+Definition dispatch_prefix (argv : list string) : dispatched :=
+  match argv with
+  | [] => DError "no args provided"
+  | c :: rest =>
+      if String.eqb c "check" || String.eqb c "" then DCheck rest
+      else if String.eqb c "doc" then DDoc rest
+      else if String.eqb c "help" then DHelp
+      else if String.eqb c "version" then DVersion
+      else DError ("no such command " ++ quote c)
+  end.
+Definition main_status_empty_word_prefix (known : string -> bool) (check_status : list string -> Z) (argv : list string) : Z :=
+  match dispatch_prefix argv with
+  | DCheck a => check_status a
+  | DDoc a => doc_status known a
+  | DHelp | DVersion => 0
+  | DError _ => 1
+  end.
+
+(* before the earlier repair run() only printed the runner's error *)
+Definition main_status_prefix (known : string -> bool) (check_status : list string -> Z) (argv : list string) : Z :=
+  match dispatch argv with
+  | DCheck a => check_status a
+  | DDoc a => match doc_parse a with None => 0 | _ => doc_status known a end
+  | DHelp | DVersion => 0
+  | DError _ => 0
+  end.
